@@ -103,6 +103,8 @@ class Inval:
                     callee = self.base.lookup(c.func.attr)
                     if callee is not None and callee.cls is not None and callee.cls.is_subclass_of('Manager'):
                         recv = src(c.func.value)
+                        if func is not None:
+                            recv = pat.expand_alias(func, n, recv)       # `parent = self.parent; parent.unregisterChild(self)`
                         for r in self.always(callee, depth - 1):
                             if r == 'self' or r.startswith('self.'):
                                 out.add(recv + r[4:])
